@@ -141,6 +141,16 @@ def check_pair(case):
                 out.viol('div-inf', 'div_(%s, join=%s) contains inf: %s' % (desc, how, list(res.values)), **sig)
             if not (a.equals(sa) and b.equals(sb)):
                 out.viol('operand-mutated', '%s_(%s) changed an operand' % (op, desc), **sig)
+            if op in ('add', 'sub', 'max'):
+                # the same operands on indexes built by pd.date_range (they carry a freq; two regular grids may be shifted against each other)
+                try:
+                    rf = opfun(op)(tm.build_series_freq(ma), tm.build_series_freq(mb), join=how)
+                    out.call()
+                    p2 = result_problem(rf, exp, '%s_(%s, join=%s) on date_range indexes' % (op, desc, how))
+                    if p2:
+                        out.viol('wrong-value', p2, freq=True, **sig)
+                except Exception as e:
+                    out.viol('raised', '%s_(%s, join=%s) on date_range indexes raised %s: %s' % (op, desc, how, type(e).__name__, e), exc=type(e).__name__, freq=True, **sig)
             if op in ('add', 'mul', 'min', 'max'):
                 try:
                     rev = opfun(op)(tm.build_series(mb), tm.build_series(ma), join=how)
@@ -293,6 +303,32 @@ def check_frames(case):
                      ('div', 'div_(A,[B,C])', lambda X: opfun('div')(X[0], X[1:], join=how, columns=colpol), 'right'),
                      ('sub', 'sub_([A,B],C)', lambda X: opfun('sub')(X[:2], X[2], join=how, columns=colpol), 'left'),
                      ('div', 'div_([A,B],C)', lambda X: opfun('div')(X[:2], X[2], join=how, columns=colpol), 'left')]
+            if colpol == 'oj':
+                # scalars INSIDE the list: [A, 2, B, 3] reduces left to right, so a column that only B brings is scaled by 3, not by 2 * 3
+                for op in ('mul', 'add'):
+                    out.sub()
+                    sigx = dict(op=op, how=how, columns=colpol, form='%s_([A,2,B,3])' % op)
+                    try:
+                        resx = opfun(op)([tm.build_frame(F[0]), 2, tm.build_frame(F[1]), 3], join=how, columns=colpol)
+                        out.call()
+                        days2 = tm.common_days([set(case['a'][0]), set(case['b'][0])], how)
+                        cols2 = sorted(set(sets[0]) | set(sets[1]))
+                        expx = {}
+                        for c in cols2:
+                            xa = tm.align(F[0][c], days2) if c in F[0] else None
+                            xb = tm.align(F[1][c], days2) if c in F[1] else None
+                            neu = NEUTRAL[op]
+                            # left to right: a column the running result does not have yet is the neutral element AT THE STEP where a frame brings it
+                            # (the scalars met before that step never touched it)
+                            if xa is not None:
+                                expx[c] = {d: npop(op, npop(op, npop(op, xa[d], 2.0), (xb[d] if xb else neu)), 3.0) for d in days2}
+                            else:
+                                expx[c] = {d: npop(op, npop(op, neu, xb[d]), 3.0) for d in days2}
+                        px = _bool_frame_problem(resx, expx, '%s_([A, 2, B, 3]) (A=%s B=%s, join=%s, columns=oj)' % (op, F[0], F[1], how))
+                        if px:
+                            out.viol('wrong-value', px, **sigx)
+                    except Exception as e:
+                        out.viol('raised', '%s_([A, 2, B, 3]) raised %s: %s' % (op, type(e).__name__, e), exc=type(e).__name__, **sigx)
             for op, fname, call, shape in forms:
                 out.sub()
                 sig = dict(op=op, how=how, columns=colpol, form=fname)
